@@ -63,6 +63,18 @@ def _mk_response(request, status, headers, body):
     return httpx.Response(status, headers=headers, content=body, request=request)
 
 
+def _check_host(server, request):
+    hosts = getattr(server, "hosts", None)
+    if hosts is not None and request.url.host not in hosts:
+        raise httpx.ConnectError("[Errno -2] Name or service not known (simulated): %r" % request.url.host, request=request)
+
+
+def _check_scheme(request):
+    # what the stubbed layer (httpcore) does for a URL without http/https scheme
+    if request.url.scheme not in ("http", "https"):
+        raise httpx.UnsupportedProtocol("Request URL is missing an 'http://' or 'https://' protocol.", request=request)
+
+
 class AsyncSimTransport(httpx.AsyncBaseTransport):
     def __init__(self, server: SimServer, verify=None, **kw):
         self.server = server
@@ -71,6 +83,8 @@ class AsyncSimTransport(httpx.AsyncBaseTransport):
 
     async def handle_async_request(self, request: httpx.Request) -> httpx.Response:
         srv = self.server
+        _check_scheme(request)
+        _check_host(srv, request)
         body = await request.aread()
         await asyncio.sleep(srv.latency("req"))
         cap = Captured(srv.next_seq(), request, body)
@@ -102,6 +116,8 @@ class SyncSimTransport(httpx.BaseTransport):
 
     def handle_request(self, request: httpx.Request) -> httpx.Response:
         srv = self.server
+        _check_scheme(request)
+        _check_host(srv, request)
         body = request.read()
         self.yield_point("net-req")
         cap = Captured(srv.next_seq(), request, body)
